@@ -66,7 +66,11 @@ def stepSQ (s : SeqState) (fs : List String) : Option (SeqState × String) := do
       pure (s', verdict agree why shown)
   | _ => none
 
-def step (st : Option SeqState) (line : String) : Option SeqState × String :=
+structure St where
+  seq : Option SeqState := none
+  cfg : Option Cfg.State := none
+
+def stepSeq (st : Option SeqState) (line : String) : Option SeqState × String :=
   match splitTab line with
   | "C02.q" :: rest => (st, (stepQ rest).getD "bad-op")
   | "C02.sreset" :: rest =>
@@ -82,4 +86,15 @@ def step (st : Option SeqState) (line : String) : Option SeqState × String :=
     | none => (st, "bad-op")
   | _ => (st, "bad-op")
 
-def main : IO Unit := run step none
+def step (st : St) (line : String) : St × String :=
+  match splitTab line with
+  | op :: rest =>
+    if op.startsWith "C02.c" then
+      let (cfg', out) := cfgStep C02.check st.cfg (op.drop 4).toString rest
+      ({ st with cfg := cfg' }, out)
+    else
+      let (seq', out) := stepSeq st.seq line
+      ({ st with seq := seq' }, out)
+  | [] => (st, "bad-op")
+
+def main : IO Unit := run step {}
